@@ -204,37 +204,46 @@ def _stencils(run, prog, mi):
                 'Dyy': L('Dyy') / (L('dy') * L('dy')), 'Dxy': L('Dxy') / (L('dx') * L('dy'))}
     idx = fn.body.index(loop)
     ev = SymEval()
-    seen = {}
-    for st in fn.body[idx + 1:]:
-        if isinstance(st, ast.Assign) and isinstance(st.targets[0], ast.Name) and st.targets[0].id in OPS:
-            seen[st.targets[0].id] = (ev.ev(st.value), st)
     for op in OPS:
-        run.subject('C20-R1s')
-        if op not in seen:
-            run.fail('C20-R1s', 'cherab.tools.inversions.admt_utils|generate_derivative_operators|scale|' + op, FILE, fn.lineno,
-                     '%s is not divided by the voxel size' % op)
-        elif seen[op][0].eq(expected[op]):
-            run.ok('C20-R1s', 'scale ' + op, norm(seen[op][1]))
-        else:
-            run.fail('C20-R1s', 'cherab.tools.inversions.admt_utils|generate_derivative_operators|scale|' + op, FILE, seen[op][1].lineno,
-                     '%s is scaled as %s, expected %s' % (op, seen[op][0], expected[op]))
-    # returned mapping: each key bound to the same-named operator
-    rets = [n for n in ast.walk(fn) if isinstance(n, ast.Return) and n.value is not None]
-    run.subject('C20-R1s')
-    bind = {}
+        ev.env[op] = L(op)
+    maps = {}
+
+    def mapping_of(e):
+        """key -> value expression of a dict display / dict(...) call / a name bound to one"""
+        if isinstance(e, ast.Name):
+            return maps.get(e.id)
+        if isinstance(e, ast.Dict) and all(isinstance(k, ast.Constant) for k in e.keys):
+            return {k.value: v for k, v in zip(e.keys, e.values)}
+        if isinstance(e, ast.Call) and dotted(e.func) == 'dict' and not e.args and all(k.arg for k in e.keywords):
+            return {k.arg: k.value for k in e.keywords}
+        return None
+    returned = None
+    KS = 'cherab.tools.inversions.admt_utils|generate_derivative_operators|'
     for st in fn.body[idx + 1:]:
-        if isinstance(st, ast.Assign) and isinstance(st.value, ast.Call) and dotted(st.value.func) == 'dict':
-            for k in st.value.keywords:
-                bind[k.arg] = norm(k.value)
-        if isinstance(st, ast.Assign) and isinstance(st.value, ast.Dict):
-            for k, v in zip(st.value.keys, st.value.values):
-                bind[k.value] = norm(v)
-    bad = [k for k in OPS if bind.get(k) != k]
-    if bad:
-        run.fail('C20-R1s', 'cherab.tools.inversions.admt_utils|generate_derivative_operators|mapping', FILE, fn.lineno,
-                 'returned mapping binds %s' % {k: bind.get(k) for k in bad})
+        if isinstance(st, ast.Assign) and len(st.targets) == 1 and isinstance(st.targets[0], ast.Name):
+            m = mapping_of(st.value)
+            if m is not None:
+                maps[st.targets[0].id] = {k: ev.ev(v) for k, v in m.items()}
+            else:
+                ev.env[st.targets[0].id] = ev.ev(st.value)
+        elif isinstance(st, ast.Return) and st.value is not None:
+            m = mapping_of(st.value)
+            if m is not None:
+                returned = {k: (v if isinstance(v, Rat) else ev.ev(v)) for k, v in m.items()}
+    if returned is None:
+        run.subject('C20-R1s')
+        run.undecided('C20-R1s', 'returned mapping', 'the value returned after the stencil loop is not a recognised mapping')
     else:
-        run.ok('C20-R1s', 'returned mapping', bind)
+        for op in OPS:
+            run.subject('C20-R1s')
+            got = returned.get(op)
+            if got is None:
+                run.fail('C20-R1s', KS + 'mapping|' + op, FILE, fn.lineno, "the returned mapping has no entry '%s'" % op)
+            elif got.eq(expected[op]):
+                run.ok('C20-R1s', 'returned %s' % op, '%s = %s' % (op, expected[op].key()))
+            else:
+                run.fail('C20-R1s', KS + 'scale|' + op, FILE, fn.lineno,
+                         "the operator returned under '%s' is %s, expected %s (stencil divided by the voxel size)" % (op, got.key(), expected[op].key()))
 
 
 class AdmtEval(SymEval):
